@@ -12,9 +12,13 @@ Definition mk_tab (sigs : list sigdesc) : sigtab := fun i => nth i sigs (Build_s
 Inductive pdesc :=
 | DComb (ss : list stmt) (inputs : list nat)
 | DSync (ss : list stmt) (clk : nat) (pol : Z) (rst : option nat) (arst : bool)
-| DClock (slot : nat) (phase : option Z) (period : Z)
+| DSyncA (ss : list stmt) (clk : nat) (pos : bool) (rst : nat)        (* domain with asynchronous reset *)
+| DClock (slot : nat) (phase : option (nat * Z)) (period : nat * Z)  (* Period(unit=value), see Engine.period_fs *)
 | DUComb (out : nat) (ins : list nat) (f : expr)
-| DUSync (out : nat) (clk : nat) (pol : bool) (rst : option nat) (ins : list nat) (f : expr).
+| DUSync (out : nat) (clk : nat) (pol : bool) (rst : option nat) (ins : list nat) (f : expr)
+| DUGen (spec : list trig) (binds : list nat) (outs : list (nat * expr))
+| DMemComb (base depth : nat) (rowsh : shape) (rports : list rport) (inputs : list nat)
+| DMemSync (base depth : nat) (rowsh : shape) (clk : nat) (pol : Z) (wports : list wport) (rports : list rport).
 
 Definition mk_proc (sigs : list sigdesc) (d : pdesc) : proc :=
   let tab := mk_tab sigs in
@@ -22,33 +26,55 @@ Definition mk_proc (sigs : list sigdesc) (d : pdesc) : proc :=
   match d with
   | DComb ss inputs => rtl_comb tab n ss inputs
   | DSync ss clk pol rst arst => rtl_sync tab n ss clk pol rst arst
+  | DSyncA ss clk pos rst => rtl_sync_arst tab n ss clk pos rst
   | DClock slot phase period =>
-      clock_proc slot (match phase with Some ph => ph | None => default_phase period end) period
+      let p := period_fs (fst period) (snd period) in
+      clock_proc slot (match phase with Some ph => period_fs (fst ph) (snd ph) | None => default_phase p end) p
   | DUComb out ins f => user_comb out (sd_shape (tab out)) ins f
   | DUSync out clk pol rst ins f => user_sync out (sd_shape (tab out)) (sd_init (tab out)) clk pol rst ins f
+  | DUGen spec binds outs => user_gen spec binds (map (fun o => (fst o, sd_shape (tab (fst o)), snd o)) outs)
+  | DMemComb base depth rowsh rports inputs => mem_comb base depth rowsh rports inputs
+  | DMemSync base depth rowsh clk pol wports rports => mem_sync base depth rowsh clk pol wports rports
   end.
 
 Definition mk_pstate (sigs : list sigdesc) (d : pdesc) : pstate :=
   match d with
   | DComb _ _ => rtl_pstate true
   | DSync _ _ _ _ _ => rtl_pstate false
+  | DSyncA _ clk pos rst => arst_pstate clk pos rst
   | DClock _ _ _ => clock_pstate
   | DUComb _ _ _ => user_pstate []
   | DUSync out _ _ _ _ _ => user_pstate [sd_init (mk_tab sigs out)]
+  | DUGen _ _ outs => user_pstate (map (fun o => sd_init (mk_tab sigs (fst o))) outs)
+  | DMemComb _ _ _ _ _ => rtl_pstate true
+  | DMemSync _ _ _ _ _ _ _ => rtl_pstate false
   end.
 
 Definition SFUEL : nat := 300.
 Definition TFUEL : nat := 60.
 Definition RFUEL : nat := 4000.
 
-(* trace of all testbenches, then -100 and the final value of every signal *)
-Definition k_run (sigs : list sigdesc) (ds : list pdesc) (tbs : list (list tbop)) (t_end : Z) : list Z :=
-  let ps := map (mk_proc sigs) ds in
-  let st0 := init_state (map sd_init sigs) (map (mk_pstate sigs) ds) tbs in
-  let orc := id_oracle (length ds) (length tbs) (length sigs) in
-  let st := run ps orc SFUEL TFUEL t_end RFUEL st0 in
+(* the same scenario under other families of orders *)
+Definition rev_orders (np nt ns : nat) : orders :=
+  Ord (rev (o_trig (full_orders np nt ns))) (rev (seq 0 np)) (rev (seq 0 ns)).
+Definition rev_oracle (np nt ns : nat) : oracle := fun _ => rev_orders np nt ns.
+(* ascending in even delta cycles, descending in odd ones *)
+Definition alt_oracle (np nt ns : nat) : oracle :=
+  fun n => if Nat.even n then full_orders np nt ns else rev_orders np nt ns.
+
+Definition flat_trace (st : estate) : list Z :=
   flat_map (fun r => Z.of_nat (fst r) :: snd r) (e_trace st) ++ [-100] ++ currs (e_slots st).
 
-(* the same scenario under a different (rotated / reversed) family of orders: used by an Example only *)
-Definition rev_oracle (np nt ns : nat) : oracle :=
-  fun _ => Ord (rev (o_trig (full_orders np nt ns))) (rev (seq 0 np)) (rev (seq 0 ns)).
+(* mode 0: `while sim.advance() and now <= t_end and not quiescent`; mode 1: sim.run_until(t_end).
+   tbs: (background, script).  The trace of all testbenches, then -100 and the final value of every signal and memory row;
+   -554 / -553 appended when the run under descending / alternating orders differs from the run under ascending orders *)
+Definition k_run (sigs : list sigdesc) (ds : list pdesc) (tbs : list (bool * list tbop)) (t_end : Z) (mode : Z) : list Z :=
+  let ps := map (mk_proc sigs) ds in
+  let st0 := init_state_bg (map sd_init sigs) (map (mk_pstate sigs) ds) tbs in
+  let go (orc : oracle) :=
+    flat_trace (if mode =? 0 then run ps orc SFUEL TFUEL t_end RFUEL st0
+                else run_until ps orc SFUEL TFUEL t_end RFUEL st0) in
+  let a := go (id_oracle (length ds) (length tbs) (length sigs)) in
+  let b := go (rev_oracle (length ds) (length tbs) (length sigs)) in
+  let c := go (alt_oracle (length ds) (length tbs) (length sigs)) in
+  a ++ (if zlist_eqb a b then [] else [-554]) ++ (if zlist_eqb a c then [] else [-553]).
